@@ -69,7 +69,7 @@ def run(ctx):
     ctx.coverage["rule"] = ("Writer: 8 steered schedule families (Close while a call sits in its metadata lookup = D1 window, with/without earlier traffic, "
                             "cancel inside lookup / while waiting for a batch, use after close; sync+async) x repetitions, plus random scripts of begin/hold/release/cancel/"
                             "close/probe/pause over BatchSize 1..3, MaxAttempts 1..3, BatchTimeout 1-3ms or 1h, produce outcomes ok/temporary/permanent. "
-                            "Reader/ConsumerGroup/Transport: scenario families listed in docs/notes/C09.md; grun = ConsumerGroup.Close hook traces replayed deterministically through Model/GroupRun. distinct = distinct observed traces")
+                            "Writer of NewWriter over its own Transport against a protocol-level loopback broker (6 families: answered / failing / held produce, Close during the metadata refresh, cancel, use after close; census of broker-side connections and goroutines after the timeouts). Reader/ConsumerGroup/Transport: scenario families listed in docs/notes/C09.md; grun = ConsumerGroup.Close hook traces replayed deterministically through Model/GroupRun. distinct = distinct observed traces")
     concrete = [d for d in dis if d.get("kind") == "disagreement" and not d["holds_on_impl"]]
     others = [d for d in dis if d not in concrete]
     recorded = 0
